@@ -11,8 +11,15 @@ DECOY_TWINS = {"quick": 0.02, "thorough": 0.05}     # engine: decoy twins (harne
 ID = "C10"
 # the codon objects are process-wide singletons: their answers must not depend on what was constructed (or refused)
 # before - C15's codon histories (every construction made twice, registry-saturating prefixes) are C10's subject too
+def _is_relaxed_first(line):
+    return line.endswith(" @x")
+
+
 BORROW = [dict(prop="c15", max=700, ops={"hist", "fhist"},
-               why="C10: answers of Codon objects after other spellings were constructed / refused, registry saturation")]
+               why="C10: answers of Codon objects after other spellings were constructed / refused, registry saturation"),
+          dict(prop="c02", max=2500, ops={"overlap", "isect", "contains", "union", "unionpo", "minus"}, pick=_is_relaxed_first,
+               why="C10: a strict parent comparison asked right after the relaxed comparison of the same operands "
+                   "(C02's ` @x` twins: operands on parents that differ in sequence / grand-parent)")]
 LEAN_MODULE = "BioCantor.Props.C10"
 DESIGN_REF = "4/C10"
 DRIVER = "drivers/C10.lean"
